@@ -10,7 +10,18 @@ impl_from_newtype_to_newtype!(crate::U7, U14);
 
 // From lower primitives to this newtype
 impl_from_primitive_to_newtype!(u8, U14);
-impl_from_primitive_to_newtype!(i8, U14);
+
+// i8 can be negative, so the conversion must be checked
+impl core::convert::TryFrom<i8> for U14 {
+    type Error = crate::TryFromGreaterError;
+
+    fn try_from(value: i8) -> Result<Self, Self::Error> {
+        if value < 0 {
+            return Err(crate::TryFromGreaterError(()));
+        }
+        Ok(Self(value as u16))
+    }
+}
 
 // From this newtype to higher primitives
 impl_from_newtype_to_primitive!(U14, u16);
